@@ -14,8 +14,6 @@ import (
 	"sync"
 
 	"github.com/gkampitakis/go-snaps/internal/colors"
-	"github.com/gkampitakis/go-snaps/internal/difflib"
-	"github.com/gkampitakis/go-snaps/match"
 )
 
 func init() {
@@ -130,9 +128,7 @@ func newProcess(m Mode) {
 		os.Setenv("UPDATE_SNAPS", m.Update)
 	}
 	nc := colors.NOCOLOR
-	verifResetGlobals()
-	match.VerifResetGlobals()
-	difflib.VerifResetGlobals()
+	verifResetGlobals() // cascades into every package of the module that snaps depends on
 	colors.NOCOLOR = nc
 	isCI = m.CI
 }
